@@ -180,6 +180,9 @@ impl vstd::std_specs::ops::AddAssignSpecImpl for ByteSize {
     open spec fn add_assign_req(&self, rhs: ByteSize) -> bool { true }
     open spec fn add_assign_spec(&self, rhs: ByteSize) -> &ByteSize { self }
 }
+// link pass 2: encrypt / decrypt / Message::get_size_bytes below are contract-less (totality only) - nothing to link. The real
+// functions are under contract in unit encryption ([C19.shape.kind.encrypt], [C19.poll.dec.kind], [C19.shape.size]); the real decrypt
+// PANICS on data shorter than 12 bytes (its `requires` there) - irrelevant here: this unit makes no no-panic claim.
 #[verifier::external_body]
 pub struct EncryptorKind { x: u8 }
 impl EncryptorKind {
@@ -229,6 +232,8 @@ pub enum Rule {
 }
 #[verifier::external_body]
 pub struct Permissioner { x: u8 }
+#[verifier::external_body]
+pub struct UserRows { x: u8 }
 // what a rule method answers: Ok exactly when the rule's decision predicate holds for the ids it was GIVEN; and a
 // table without any row for user id 0 (`no_anon`, = no_rows(p, 0) of unit permissioner) denies user 0 everything
 // (every rule of unit permissioner is Ok only if some row of the user exists: [C09.sound.*])
@@ -239,8 +244,13 @@ pub open spec fn rule_result(p: &Permissioner, r: Result<(), IggyError>, rule: R
 impl Permissioner {
     pub uninterp spec fn allows(&self, rule: Rule, user_id: u32, stream_id: u32, topic_id: u32) -> bool;
     pub uninterp spec fn no_anon(&self) -> bool;
-    // the permission record the rows of a user denormalise (None: the user has no rows) — [C09.tables] of unit permissioner
-    pub uninterp spec fn rows(&self, user_id: u32) -> Option<Option<Permissions>>;
+    // the denormalisation invariant of the tables (perm_wf of unit permissioner): precondition of the five message rules
+    pub uninterp spec fn wf(&self) -> bool;
+    // the rows of a user in the permission tables (abstract here; the link interprets it as the user's slice of the six real tables).
+    // (before link pass 2 this was `-> Option<Option<Permissions>>`, "the record the rows denormalise": not a function of the tables)
+    pub uninterp spec fn rows(&self, user_id: u32) -> UserRows;
+    // LINKED: units/permissioner/lemmas.rs, harnesses [C09.link.authn_gate.<method>], prove every stub contract of this impl block from the real
+    // functions, under the interpretation of allows / no_anon / wf / rows given there (mirror edits there)
     #[verifier::external_body]
     pub fn get_stats(&self, user_id: u32) -> (r: Result<(), IggyError>)
         ensures rule_result(self, r, Rule::GetStats, user_id, 0, 0),
@@ -339,10 +349,12 @@ impl Permissioner {
     { unimplemented!() }
     #[verifier::external_body]
     pub fn poll_messages(&self, user_id: u32, stream_id: u32, topic_id: u32) -> (r: Result<(), IggyError>)
+        requires self.wf(),
         ensures rule_result(self, r, Rule::PollMessages, user_id, stream_id, topic_id),
     { unimplemented!() }
     #[verifier::external_body]
     pub fn append_messages(&self, user_id: u32, stream_id: u32, topic_id: u32) -> (r: Result<(), IggyError>)
+        requires self.wf(),
         ensures rule_result(self, r, Rule::AppendMessages, user_id, stream_id, topic_id),
     { unimplemented!() }
     #[verifier::external_body]
@@ -371,33 +383,37 @@ impl Permissioner {
     { unimplemented!() }
     #[verifier::external_body]
     pub fn get_consumer_offset(&self, user_id: u32, stream_id: u32, topic_id: u32) -> (r: Result<(), IggyError>)
+        requires self.wf(),
         ensures rule_result(self, r, Rule::GetConsumerOffset, user_id, stream_id, topic_id),
     { unimplemented!() }
     #[verifier::external_body]
     pub fn store_consumer_offset(&self, user_id: u32, stream_id: u32, topic_id: u32) -> (r: Result<(), IggyError>)
+        requires self.wf(),
         ensures rule_result(self, r, Rule::StoreConsumerOffset, user_id, stream_id, topic_id),
     { unimplemented!() }
     #[verifier::external_body]
     pub fn delete_consumer_offset(&self, user_id: u32, stream_id: u32, topic_id: u32) -> (r: Result<(), IggyError>)
+        requires self.wf(),
         ensures rule_result(self, r, Rule::DeleteConsumerOffset, user_id, stream_id, topic_id),
     { unimplemented!() }
-    // [C09.tables] of unit permissioner: the rows of `user_id` become the denormalisation of `permissions`, the rows
-    // of every other user are untouched
+    // [C09.tables.*.others] of unit permissioner: the rows of every user other than `user_id` are untouched.
+    // (link pass 2 dropped the first clause `final(self).rows(user_id) == Some(permissions)` / `.. is None`: it said more than
+    //  [C09.tables.*.rows] proves — the tables do not determine the record — and no proof of this unit used it)
     #[verifier::external_body]
     pub fn init_permissions_for_user(&mut self, user_id: u32, permissions: Option<Permissions>)
-        ensures final(self).rows(user_id) == Some(permissions),
+        ensures
             forall|v: u32| v != user_id ==> #[trigger] final(self).rows(v) == old(self).rows(v),
             user_id != 0 ==> final(self).no_anon() == old(self).no_anon(),
     { unimplemented!() }
     #[verifier::external_body]
     pub fn update_permissions_for_user(&mut self, user_id: u32, permissions: Option<Permissions>)
-        ensures final(self).rows(user_id) == Some(permissions),
+        ensures
             forall|v: u32| v != user_id ==> #[trigger] final(self).rows(v) == old(self).rows(v),
             user_id != 0 ==> final(self).no_anon() == old(self).no_anon(),
     { unimplemented!() }
     #[verifier::external_body]
     pub fn delete_permissions_for_user(&mut self, user_id: u32)
-        ensures final(self).rows(user_id) is None,
+        ensures
             forall|v: u32| v != user_id ==> #[trigger] final(self).rows(v) == old(self).rows(v),
             user_id != 0 ==> final(self).no_anon() == old(self).no_anon(),
     { unimplemented!() }
@@ -498,10 +514,14 @@ pub open spec fn may_topic(s: &System, session: &Session, rule: Rule, sid: &Iden
 // invariants of the System the gate relies on (established by construction/loading; their preservation is C06's):
 //  - a topic record carries the id of the stream record that holds it (Topic::create(stream_id, ..));
 //  - the permission tables have no row for user id 0 (ids are allocated from 1);
+//  - the denormalised membership sets of the permission tables agree with the tables (perm_wf of unit permissioner: precondition of the
+//    five message rules, added when their stubs were linked; kept by the three table mutators, [C09.tables.*.wf] there — for
+//    init_permissions_for_user on a user id WITHOUT rows, i.e. create_user relies on the freshness of the allocated id, C05's subject);
 pub open spec fn gate_wf(s: &System) -> bool {
     &&& forall|k: u32, j: u32| #![trigger s.streams@[k].topics@[j]]
             s.streams@.contains_key(k) && s.streams@[k].topics@.contains_key(j) ==> s.streams@[k].topics@[j].stream_id == s.streams@[k].stream_id
     &&& s.permissioner.no_anon()
+    &&& s.permissioner.wf()
 }
 
 // ---- users ---------------------------------------------------------------------------------------------
@@ -513,6 +533,11 @@ pub open spec fn user_of(users: Map<u32, User>, ident: &Identifier) -> Option<u3
     } else {
         match name_key(users, ident.text()) { Some(k) => if users.contains_key(k) { Some(k) } else { None }, None => None }
     }
+}
+// user names identify users (unit catalogue_more keeps it: [C06.users.unique.*]). Precondition of the by-name lookups since link pass 2:
+// without it "the key the scan yields" is not a function of the map, and the lookups of one operation need not hit the same record
+pub open spec fn user_names_unique(users: Map<u32, User>) -> bool {
+    forall|a: u32, b: u32| #![trigger users[a], users[b]] users.contains_key(a) && users.contains_key(b) && users[a].username == users[b].username ==> a == b
 }
 // user operations that a user may always apply to the own account, and to another account only with the rule
 pub open spec fn may_self_or(s: &System, session: &Session, rule: Rule, user_id: &Identifier) -> bool {
@@ -542,6 +567,7 @@ pub open spec fn root_kept(a: &System, b: &System) -> bool {
     }
 }
 impl User {
+    // LINKED: units/credentials/lemmas.rs, harness [C10.link.authn_gate.User_new] (mirror edits there)
     #[verifier::external_body]
     pub fn new(id: u32, username: &Name, password: &Name, status: UserStatus, permissions: Option<Permissions>) -> (r: User)
         ensures r.id == id,
@@ -650,14 +676,19 @@ impl System {
     #[verifier::external_body] pub fn get_streams(&self) -> (r: Vec<&Stream>) { unimplemented!() }
     // systems/streams.rs get_stream_mut (verified in unit catalogue_maps, [C06.byname.stream.get_mut]): the same record
     // get_stream resolves, handed out mutably
+    // LINKED: units/catalogue_maps/lemmas.rs, harness [C06.link.authn_gate.get_stream_mut] (mirror edits there)
     #[verifier::external_body]
     pub fn get_stream_mut(&mut self, identifier: &Identifier) -> (r: Result<&mut Stream, IggyError>)
         ensures r matches Ok(s) ==> stream_at(old(self), identifier) == Some(*s),
     { unimplemented!() }
     #[verifier::external_body] pub fn clean_cache(&self, size_to_clean: ByteSize) { unimplemented!() }
     // systems/users.rs try_get_user / get_user / get_user_mut: numeric identifiers index the map, names scan it
+    // LINKED: units/credentials/lemmas.rs, harnesses [C10.link.authn_gate.try_get_user] / [..get_user] / [..get_user_mut], prove these three
+    // contracts from the real functions with `name_key` interpreted as "the key that holds the name" (mirror edits there). The `requires` was
+    // ADDED by the link: the real by-name scan yields SOME record with the name; it is the record at name_key only if names are unique.
     #[verifier::external_body]
     pub fn try_get_user(&self, user_id: &Identifier) -> (r: Result<Option<&User>, IggyError>)
+        requires user_id.kind != IdKind::Numeric ==> user_names_unique(self.users@),
         ensures match r {
             Ok(Some(u)) => user_of(self.users@, user_id) matches Some(k) && *u == self.users@[k],
             Ok(None) => user_of(self.users@, user_id) is None,
@@ -665,12 +696,14 @@ impl System {
     { unimplemented!() }
     #[verifier::external_body]
     pub fn get_user(&self, user_id: &Identifier) -> (r: Result<&User, IggyError>)
+        requires user_id.kind != IdKind::Numeric ==> user_names_unique(self.users@),
         ensures match r {
             Ok(u) => user_of(self.users@, user_id) matches Some(k) && *u == self.users@[k],
             Err(_) => user_of(self.users@, user_id) is None },
     { unimplemented!() }
     #[verifier::external_body]
     pub fn get_user_mut(&mut self, user_id: &Identifier) -> (r: Result<&mut User, IggyError>)
+        requires user_id.kind != IdKind::Numeric ==> user_names_unique(old(self).users@),
         ensures match r {
             Ok(u) => user_of(old(self).users@, user_id) matches Some(k) && *u == old(self).users@[k]
                 && final(self).users@ == old(self).users@.insert(k, *final(u)) && sys_only_users(old(self), final(self)),
